@@ -66,7 +66,7 @@ def arrival_pattern(rng, rates, tps, length, sources, amounts=True):
     minb = min(r["b"] for r in rates)
     t = 0
     while len(steps) < length:
-        mode = rng.choice(["burst", "sustained", "gap", "trickle", "retry", "idle"])
+        mode = rng.choice(["burst", "sustained", "gap", "trickle", "retry", "idle", "stalefull", "stalefull"])
         src = rng.choice(sources)
         n = rng.choice([1, 1, 1, 2, minb, minb + 1]) if amounts else 1
         if mode == "burst":
@@ -87,6 +87,18 @@ def arrival_pattern(rng, rates, tps, length, sources, amounts=True):
             for _ in range(rng.randint(3, 12)):
                 steps.append({"op": "req", "src": rng.choice(sources), "n": 1})
                 steps.append({"op": "adv", "d": rng.randint(1, 2 * tps)})
+        elif mode == "stalefull":
+            # a request that leaves the bucket full without consuming (oversize, or refused by another rate), an idle
+            # gap shorter than the entry lifetime, then back-to-back requests for the whole burst
+            steps.append({"op": "adv", "d": max(r["b"] * (r["p"] // r["a"]) for r in rates)})
+            if rng.random() < 0.6:
+                steps.append({"op": "req", "src": src, "n": max(r["b"] for r in rates) + 1})
+            else:
+                for _ in range(rng.randint(1, 3)):
+                    steps.append({"op": "req", "src": src, "n": minb})
+            steps.append({"op": "adv", "d": rng.randint(1, max(1, ttl - 1))})
+            for _ in range(rng.randint(2, 4)):
+                steps.append({"op": "req", "src": src, "n": rng.choice([minb, minb, 1])})
         elif mode == "retry":
             for _ in range(max(r["b"] for r in rates) + 1):
                 steps.append({"op": "req", "src": src, "n": 1})
